@@ -139,6 +139,20 @@ delta c3 "(c3) libconfig_malloc tests the wrong variable" \
 "< wrapper | libconfig_malloc | true
 > wrapper | libconfig_malloc | false"
 
+# (c4) the wrappers hand their result to a checking helper (behaviour-preserving refactoring): still checked
+fresh
+subst "$WORK/m/lib/util.c" '^void \*libconfig_malloc\(size_t size\)\n\{.*?\n\}\n' 'static void *chk(void *p)\n{\n  if(!p)\n    libconfig_fatal_error(__libconfig_malloc_failure_message);\n  return(p);\n}\n\nvoid *libconfig_malloc(size_t size)\n{\n  return(chk(malloc(size)));\n}\n' &&
+gen "$WORK/m" c4
+delta c4 "(c4) libconfig_malloc returns chk(malloc(size)) with a checking helper: census unchanged" ""
+
+# (c5) ... and a helper that does not check its parameter does not count
+fresh
+subst "$WORK/m/lib/util.c" '^void \*libconfig_malloc\(size_t size\)\n\{.*?\n\}\n' 'static void *chk(void *p)\n{\n  if(p)\n    libconfig_fatal_error(__libconfig_malloc_failure_message);\n  return(p);\n}\n\nvoid *libconfig_malloc(size_t size)\n{\n  return(chk(malloc(size)));\n}\n' &&
+gen "$WORK/m" c5
+delta c5 "(c5) the helper tests with the wrong polarity" \
+"< wrapper | libconfig_malloc | true
+> wrapper | libconfig_malloc | false"
+
 # (d) process exit and a write to stderr
 fresh
 subst "$WORK/m/lib/scanctx.c" '(^void libconfig_scanctx_init\([^{]*\{)' '\1 exit(3);' &&
